@@ -69,7 +69,11 @@ func (logicFamily) Corpus(string) []*hc.Case {
 	pc := logicParams{Opener: "consec", Thr: 3, Sleep: sec, Half: 1, Req: 1}
 	// the streak passes a threshold that is lowered afterwards
 	c := []logicOp{run("KFailure", 0), run("KFailure", 0), {K: "shouldopen"}, {K: "setthr", A: 2}, {K: "shouldopen"}, run("KBadRequest", 0), run("KInterrupt", 0), {K: "shouldopen"}, run("KSuccess", 0), {K: "shouldopen"}}
-	return []*hc.Case{logicCase(p, a), logicCase(p, b), logicCase(pc, c)}
+	// the probe budget changed inside a partly used half-open window: what was spent stays spent
+	p3 := logicParams{Opener: "consec", Thr: 3, Sleep: sec, Half: 3, Req: 5}
+	d := []logicOp{{K: "circ", Kind: "Opened", T: 0}, {K: "fire", A: 0}, {K: "allow", T: sec}, {K: "allow", T: sec}, {K: "setcloser", A: sec, B: 4, C: 5}, {K: "allow", T: sec}, {K: "allow", T: sec}, {K: "allow", T: sec},
+		{K: "fire", A: 1}, {K: "allow", T: 2 * sec}, {K: "setcloser", A: sec, B: 2, C: 5}, {K: "allow", T: 2 * sec}, {K: "allow", T: 2 * sec}, {K: "setcloser", A: sec, B: 3, C: 5}, {K: "allow", T: 2 * sec}, {K: "allow", T: 2 * sec}}
+	return []*hc.Case{logicCase(p, a), logicCase(p, b), logicCase(pc, c), logicCase(p3, d)}
 }
 
 func (logicFamily) Gen(r *rand.Rand, i int, tier string) *hc.Case {
